@@ -283,7 +283,7 @@ general_case:
     {
       /* V completely cancelled.  */
       if (tp != up)
-	MPN_COPY (rp, up, usize);
+	MPN_COPY_INCR (rp, up, usize);
       rsize = usize;
     }
   else
@@ -294,7 +294,7 @@ general_case:
 	{
 	  if (vsize == 0)
 	    {
-	      MPN_COPY (rp, up, usize);
+	      MPN_COPY_INCR (rp, up, usize);
 	      rsize = usize;
 	      goto done;
 	    }
@@ -306,7 +306,7 @@ general_case:
 	{
 	  if (usize == 0)
 	    {
-	      MPN_COPY (rp, vp, vsize);
+	      MPN_COPY_INCR (rp, vp, vsize);
 	      rsize = vsize;
 	      negate ^= 1;
 	      goto done;
